@@ -220,10 +220,12 @@ def rule_cancel_roots_only(ctx, facts, rule):
                       "only Span::root creates spans with collect_id = Some (non-root spans cannot cancel or commit a trace)",
                       "None", "a span is built with collect_id origins %s" % origin_strs(src), extra="new")
     ctx.floor(rule, "fastrace::span::SpanInner", len(builds), 3, "places where a recording span is built")
-    allowed = {"fastrace::span::Span::root", "fastrace::span::Span::enter_with_parents", "fastrace::span::Span::enter_with_stack", SPAN_NEW}
-    ctx.check(hosts <= allowed, rule, "fastrace::span::SpanInner", "-",
-              "recording spans are built only by Span::root, enter_with_parents and enter_with_stack (through the private constructor)", "",
-              "SpanInner constructed in %s" % sorted(hosts - allowed), extra="builders")
+    # which constructor of Span hosts a build is free (each one is checked above for collect_id = None unless it is Span::root);
+    # what matters is that nothing outside Span's own constructors builds a recording span
+    outside = sorted(h for h in hosts if not (re.fullmatch(r"fastrace::span::Span::(root|enter_with_\w+)", h) or h == SPAN_NEW))
+    ctx.check(not outside, rule, "fastrace::span::SpanInner", "-",
+              "recording spans are built only by Span's own constructors (root, enter_with_*; through the private constructor)", "",
+              "SpanInner constructed in %s" % outside, extra="builders")
 
 
 def rule_fanout(ctx, c, rule):
